@@ -458,6 +458,36 @@ theorem Sim.step {c : Cache K V} {s : Ref K V} (h : Sim c s) (op : Op K V) :
   | ne o =>
     have : c.eqArg o = s.eqArg o := by cases o <;> simp [Cache.eqArg, Ref.eqArg, h.d]
     simp only [C02.step, Ref.step, this]; exact ⟨h, OutSim.bool _⟩
+  | updateFail l => exact ⟨h.setAll l, OutSim.raised⟩
+  | eqOther => exact ⟨h, OutSim.bool _⟩
+  | neOther => exact ⟨h, OutSim.bool _⟩
+
+omit [DecidableEq V] in
+/-- reading one cache into another: both stay in simulation with the reference pair -/
+theorem Sim.updFrom {c o : Cache K V} {s t : Ref K V} (hc : Sim c s) (ho : Sim o t) (ks : List K) :
+    Sim (updFrom c o ks).1 (Ref.updFrom s t ks).1 ∧ Sim (updFrom c o ks).2.1 (Ref.updFrom s t ks).2.1 ∧
+    (updFrom c o ks).2.2 = (Ref.updFrom s t ks).2.2 := by
+  induction ks generalizing c o s t with
+  | nil => exact ⟨hc, ho, rfl⟩
+  | cons k ks ih =>
+    have hg := ho.getitem k
+    cases hco : o.getitem k with
+    | mk o' out =>
+      cases hrt : t.lookup k with
+      | mk t' out' =>
+        rw [hco, hrt] at hg
+        obtain ⟨hs, hout⟩ := hg
+        simp only [C02.updFrom, Ref.updFrom, hco, hrt]
+        cases hout with
+        | val v => exact ih (hc.setitem k v) hs
+        | none => exact ⟨hc, hs, rfl⟩
+        | keyError => exact ⟨hc, hs, rfl⟩
+        | raised => exact ⟨hc, hs, rfl⟩
+        | item k v => exact ⟨hc, hs, rfl⟩
+        | bool b => exact ⟨hc, hs, rfl⟩
+        | nat n => exact ⟨hc, hs, rfl⟩
+        | items l => exact ⟨hc, hs, rfl⟩
+        | cache hn => exact ⟨hc, hs, rfl⟩
 
 
 /-- simulation between worlds of caches -/
@@ -551,6 +581,33 @@ theorem WSim.step {w : List (Cache K V)} {ws : List (Ref K V)} (h : WSim w ws) (
     · simp only [wstep, Ref.wstep, h1, h2]; exact ⟨h, OutSim.none⟩
     · simp only [wstep, Ref.wstep, h1, h2, h.argOf i j]
       exact ⟨h, (hs.step _).2⟩
+  | updc i j kw =>
+    rcases h.get i with ⟨h1, h2⟩ | ⟨c, s, h1, h2, hs⟩
+    · simp only [wstep, Ref.wstep, h1, h2]; exact ⟨h, OutSim.none⟩
+    · rcases h.get j with ⟨g1, g2⟩ | ⟨o, t, g1, g2, ht⟩
+      · simp only [wstep, Ref.wstep, h1, h2, g1, g2]; exact ⟨h, OutSim.none⟩
+      · simp only [wstep, Ref.wstep, h1, h2, g1, g2]
+        by_cases e : i = j
+        · simp only [e, if_true]; exact ⟨h, OutSim.none⟩
+        · simp only [e, if_false]
+          have hu := hs.updFrom ht (keys o.d)
+          rw [ht.d] at hu
+          rw [ht.d]
+          cases hm : C02.updFrom c o (keys t.ents) with
+          | mk c' r =>
+            cases r with
+            | mk o' b =>
+              cases hr : Ref.updFrom s t (keys t.ents) with
+              | mk s' r' =>
+                cases r' with
+                | mk t' b' =>
+                  rw [hm, hr] at hu
+                  obtain ⟨u1, u2, u3⟩ := hu
+                  simp only [] at u1 u2 u3
+                  subst u3
+                  cases b with
+                  | true => exact ⟨(h.set i (u1.setAll kw)).set j u2, OutSim.none⟩
+                  | false => exact ⟨(h.set i u1).set j u2, OutSim.keyError⟩
 
 theorem WSim.run {w : List (Cache K V)} {ws : List (Ref K V)} (h : WSim w ws) (ops : List (WOp K V)) :
     WSim (wrun w ops) (Ref.wrun ws ops) ∧ (wouts w ops).map Out.shape = (Ref.wouts ws ops).map Out.shape := by
